@@ -467,7 +467,8 @@ class ConfigParser(object):
 
   def _set_item(self, cp, override):
     try:
-      cp[override.section][override.key] = override.value
+      # As for a value read from the file, blanks around the value are not part of it
+      cp[override.section][override.key] = override.value.strip()
     except ValueError as e:
       # configparser refuses a value whose place-holder syntax is wrong (e.g. a lone '$') as it is set
       raise ConfigParserException("Problem with place-holder in [{}] '{}': {}".format(override.section, override.key, e))
